@@ -6,6 +6,18 @@ props=[json.loads(l) for l in open('/verif/properties.jsonl')]
 HOOK_COMMITS=["dc2fd90"]
 # id -> (technique, level text, level note)
 DONE={
+ "C04":("runtime monitoring: reference-model monitor (own CMAC, own LE serialisation, own AES-ECB) next to every join MIC / join-accept encrypt / decrypt call, with single-field perturbation rounds and a device-side decrypt model",
+        "held on the executions observed: every MIC and ciphertext the library produces for generated join messages equals the independently computed spec value, and Validate agrees with the model on every single-field perturbation tried",
+        "trusted: crypto/aes; harness CMAC; LoRaWAN 1.1 §6.2 join-accept MIC/encryption rules"),
+ "C11":("runtime monitoring: integer-arithmetic reference model of the NetID/DevAddr rules compared on enumerated NetIDs (all 2^24 in the thorough tier) and near-miss addresses; representation round trips and wrong-length rejection on generated identifiers",
+        "quick: held on a stride-97 + boundary sample of NetIDs; thorough: exhaustive over all 2^24 NetIDs x 4 DevAddrs; representation checks held on the generated values and every wrong length 0..2n",
+        "trusted: the prefix-length / NwkID-width table of the property statement"),
+ "C19":("runtime monitoring: independent TS004 matrix_line/prbs23 model + GF(2) erasure decoder judging real Encode executions; linearity oracle; invalid-argument probes under recover()",
+        "held on the executions observed (thorough: the complete fragment-size x fragment-count grid once, plus erasure trials)",
+        "trusted: TS004-1.0.0 §8 pseudo code as transcribed in harness/spec/frag.go"),
+ "C20":("runtime monitoring: independent leap-second table, exact-rational AN1200.13 model and own EIRP table compared with every call; dense boundary neighbourhoods; thorough tier sweeps the complete airtime grid and every float32 >= 8",
+        "held on the executions observed; the airtime grid and the float32 domain are enumerated completely in the thorough tier",
+        "trusted: IERS leap-second dates, AN1200.13 formula, TXParamSetup EIRP table"),
  "C01":("runtime monitoring: round-trip (inverse) oracle over seeded structure-aware and boundary-enumerated executions of the real encoder/decoder",
         "held on the executions observed: the real Marshal*/Unmarshal* are run on a large seeded, structure-aware workload plus the complete header-length boundary grid and each execution is judged field by field",
         "trusted: Go standard library, the harness generators; paths the workload does not drive are not covered"),
